@@ -600,6 +600,9 @@ func genC13(rng *rand.Rand, n int, thorough bool, emit func(string)) {
 			emit(fmt.Sprintf("REGC %d %d %d %d", rng.Intn(1000), 1+rng.Intn(5), 1+rng.Intn(4), 20+rng.Intn(200)))
 		case k < 150:
 			emit("REG " + pick(rng, "c", "w") + " " + genRegScript(rng, 25))
+		case k < 400:
+			// the same kind of script, judged against the registry functions as translated (Gen/Reset.lean)
+			emit("GREG " + pick(rng, "d", "d", "c") + " " + genRegScript(rng, 40))
 		default:
 			emit("REG d " + genRegScript(rng, 40))
 		}
